@@ -48,6 +48,7 @@ import Lattigo.Proofs.InnerSumTrace
 import Lattigo.Proofs.InnerSumSchemes
 import Lattigo.Proofs.SlotLawful
 import Lattigo.Proofs.RotateSlots
+import Lattigo.Props.C11Gen
 import Mathlib.Tactic.NormNum.Prime
 
 namespace Lattigo.Props.C11
